@@ -134,6 +134,13 @@ static void d_rec(C4_Rec_table_t t, int depth)
     D("}");
 }
 static void d_big(C4_Big_struct_t b) { if (!b) { D("~"); return; } D("(%lld,%llu)", (long long)C4_Big_l(b), (unsigned long long)C4_Big_u(b)); }
+static void d_lim(C4_Lim_struct_t m)
+{
+    if (!m) { D("~"); return; }
+    D("Lim{%d,%d,%d,%lld ab=%d,%d as=%d,%d ai=%d,%d al=%lld,%lld e=%d ae=%d,%d}", C4_Lim_b(m), C4_Lim_s(m), C4_Lim_i(m), (long long)C4_Lim_l(m),
+      C4_Lim_ab(m, 0), C4_Lim_ab(m, 1), C4_Lim_as(m, 0), C4_Lim_as(m, 1), C4_Lim_ai(m, 0), C4_Lim_ai(m, 1), (long long)C4_Lim_al(m, 0), (long long)C4_Lim_al(m, 1),
+      C4_Lim_e(m), C4_Lim_ae(m, 0), C4_Lim_ae(m, 1));
+}
 static void d_nums(C4_Nums_table_t t)
 {
     size_t i;
@@ -143,7 +150,18 @@ static void d_nums(C4_Nums_table_t t)
     { flatbuffers_uint64_vec_t v = C4_Nums_vu(t); D(" vu="); if (!v) D("~"); else { D("["); for (i = 0; i < flatbuffers_uint64_vec_len(v); ++i) D("%llu,", (unsigned long long)flatbuffers_uint64_vec_at(v, i)); D("]"); } }
     D(" big="); d_big(C4_Nums_big(t));
     { C4_Big_vec_t v = C4_Nums_vbig(t); D(" vbig="); if (!v) D("~"); else { D("["); for (i = 0; i < C4_Big_vec_len(v); ++i) d_big(C4_Big_vec_at(v, i)); D("]"); } }
-    D(" i="); P(C4_Nums_i_is_present(t)); D("%d w=", C4_Nums_i(t)); P(C4_Nums_w_is_present(t)); D("%u}", C4_Nums_w(t));
+    D(" i="); P(C4_Nums_i_is_present(t)); D("%d w=", C4_Nums_i(t)); P(C4_Nums_w_is_present(t)); D("%u", C4_Nums_w(t));
+    D(" b8="); P(C4_Nums_b8_is_present(t)); D("%d s16=", C4_Nums_b8(t)); P(C4_Nums_s16_is_present(t)); D("%d", C4_Nums_s16(t));
+    { flatbuffers_int8_vec_t v = C4_Nums_vb8(t); D(" vb8="); if (!v) D("~"); else { D("["); for (i = 0; i < flatbuffers_int8_vec_len(v); ++i) D("%d,", flatbuffers_int8_vec_at(v, i)); D("]"); } }
+    { flatbuffers_int16_vec_t v = C4_Nums_vs16(t); D(" vs16="); if (!v) D("~"); else { D("["); for (i = 0; i < flatbuffers_int16_vec_len(v); ++i) D("%d,", flatbuffers_int16_vec_at(v, i)); D("]"); } }
+    { flatbuffers_int32_vec_t v = C4_Nums_vi32(t); D(" vi32="); if (!v) D("~"); else { D("["); for (i = 0; i < flatbuffers_int32_vec_len(v); ++i) D("%d,", flatbuffers_int32_vec_at(v, i)); D("]"); } }
+    D(" lim="); d_lim(C4_Nums_lim(t));
+    { C4_Lim_vec_t v = C4_Nums_vlim(t); D(" vlim="); if (!v) D("~"); else { D("["); for (i = 0; i < C4_Lim_vec_len(v); ++i) d_lim(C4_Lim_vec_at(v, i)); D("]"); } }
+    D(" e="); P(C4_Nums_e_is_present(t)); D("%d", C4_Nums_e(t));
+    { C4_Neg_vec_t v = C4_Nums_ve(t); D(" ve="); if (!v) D("~"); else { D("["); for (i = 0; i < C4_Neg_vec_len(v); ++i) D("%d,", C4_Neg_vec_at(v, i)); D("]"); } }
+    D(" full="); P(C4_Nums_full_is_present(t)); D("%u", C4_Nums_full(t));
+    { C4_Full_vec_t v = C4_Nums_vfull(t); D(" vfull="); if (!v) D("~"); else { D("["); for (i = 0; i < C4_Full_vec_len(v); ++i) D("%u,", C4_Full_vec_at(v, i)); D("]"); } }
+    D("}");
 }
 #define SCALAR(name, fmt, cast) do { D(" " #name "="); P(C4_Root_ ## name ## _is_present(t)); D(fmt, (cast)C4_Root_ ## name(t)); } while (0)
 #define BYTEVEC(name) do { flatbuffers_uint8_vec_t v = C4_Root_ ## name(t); D(" " #name "="); if (!v) D("~"); else { D("b%u:", (unsigned)flatbuffers_uint8_vec_len(v)); d_bytes(v, flatbuffers_uint8_vec_len(v)); } } while (0)
